@@ -64,7 +64,7 @@ CHECKS = {
              'the unmerged depth are covered only through the merged search, whose fingerprint leaves out lru-cache fill levels.'),
     'C19': dict(
         technique='exhaustive single-fault injection at every node of every enumerated valid document; independent path walker; reference validator decides fault applicability',
-        text='Model checking by complete enumeration: 11 generated schemas with ALL their valid instances up to 10 (quick) / 14 (thorough: complete instance sets) '
+        text='Model checking by complete enumeration: 15 generated schemas (incl. pattern-restricted unions followed by other union-typed values, inheritable attributes, assertions) with ALL their valid instances up to 10 (quick) / 14 (thorough: complete instance sets) '
              'nodes plus 70 valid corpus documents; every fault of a 12-kind catalogue at every node, through 3 source kinds. Each error path is evaluated by '
              'an independent path walker and must select exactly the error element; a damaged document must be invalid with an error on the damaged node or its '
              'parent and none outside its ancestor chain and subtree.',
@@ -122,7 +122,7 @@ CHECKS = {
         technique='exhaustive enumeration of attribute declaration vectors x wildcards x every subset of a name pool x value deviations; set/dict reference model',
         text='Model checking by bounded exhaustive enumeration: declaration vectors over 6 declarable items (local/qualified/ref to target, foreign and xml: '
              'globals; use x default/fixed x direct/attributeGroup x type) with 1 item complete, 2-3 items up to a deviation bound, x 22 attribute wildcards '
-             '(7 namespace constraints x skip/lax/strict + none), x EVERY subset of a 7-name pool (+ xsi:nil, an undeclared foreign name) x single value '
+             '(7 namespace constraints x skip/lax/strict + none), the product attributeFormDefault {absent, qualified, unqualified} x form {absent, qualified, unqualified}, x EVERY subset of a 7-name pool (+ xsi:nil, an undeclared foreign name) x single value '
              'deviations, x use_defaults x fill_missing, both processors. The statement is transcribed with Python sets/dicts (mc/ref/attrs.py); verdict, decoded keys '
              'and decoded values are compared.',
         design_ref='DESIGN.md section 2, C03',
@@ -139,7 +139,9 @@ CHECKS = {
     'C08': dict(
         technique='exhaustive enumeration of all small field-tuple tables per constraint template x value alphabets with lexical variants x scopes; dict-based node-table reference',
         text='Model checking by bounded exhaustive enumeration: templates unique / key / key+keyref x 6 field layouts x 11 value alphabets (two lexical forms of one value, '
-             'a different value, absent) x scopes (root, wrapper, sibling scopes, scope nested in itself, keyref one level above its key) x ALL tables up to 3 (quick) / 4 '
+             'a different value, absent) x scopes (root, wrapper, sibling scopes, scope nested in itself, keyref one level above its key, constraints reused by ref in 1.1, '
+             'the XSD 1.1 xpathDefaultNamespace product of 7 schema settings x 6 selector/field settings x 3 prefix styles, QName fields whose namespace declarations sit on the field element, '
+             'rows that exist only through xsi:type under child / descendant / own-element selectors) x ALL tables up to 3 (quick) / 4 '
              '(thorough) rows in all row orders, plus every ID/IDREF/IDREFS table over 6 carrier layouts, both processors. The five rejection conditions of the statement are '
              'evaluated on plain dict node tables keyed by value-space tuples and compared with is_valid().',
         design_ref='DESIGN.md section 2, C08',
@@ -179,7 +181,8 @@ CHECKS = {
     'C11': dict(
         technique='exhaustive single-fault / truncation / byte-substitution injection at every position of every seed document; limit sweeps across each limit in subprocesses',
         text='Model checking by bounded exhaustive fault enumeration: 12 seed documents + 81 corpus files <= 2 kB; EVERY fault of a 40-entry catalogue at every element/attribute/text '
-             'position (pairs: seed slice in quick, all in thorough), EVERY truncation prefix, EVERY single-byte substitution from 6 bytes at every offset; 18 calls per document (eager/lazy '
+             'position (pairs: seed slice in quick, all in thorough), EVERY truncation prefix, EVERY single-byte substitution from 6 bytes at every offset; a 72-case matrix of element wildcards with an '
+             'empty namespace set as expected particles; single-line bytes sources with BOMs / declared encodings (incl. unknown and multi-byte ones) and their prefixes; every collected error is rendered (str, repr, reason, path); 18 calls per document (eager/lazy '
              'resource construction, is_valid/iter_errors/lax decode/strict decode x both processors x eager/lazy). Outcome must be a normal return or a library exception; lax calls may raise '
              'only the XMLResourceError family and only when expat says the input is not well-formed. Limit sweeps: MAX_XML_DEPTH in {default,50,10,2,1} and MAX_XML_ELEMENTS in {default,100,2,1} '
              'at limit-1/limit/limit+1 (every size for the small limits), eager and lazy, each setting in its own process.',
@@ -188,7 +191,8 @@ CHECKS = {
              'keyref whose key scope element never occurs.'),
     'C04': dict(
         technique='exhaustive product of fault-class documents x entry points x validation modes x source kinds; pairwise agreement oracle; console script in subprocesses',
-        text='Model checking by complete enumeration of a finite product: 439 (document, version) pairs (minimal valid and invalid document of every fault class of the sibling properties, '
+        text='Model checking by complete enumeration of a finite product: 606 (document, version) pairs over 20 schemas (minimal valid and invalid document of every fault class of the sibling properties, '
+             'omitted attributes whose default / fixed value is an IDREF, a prefixed QName or (1.1) an ID, '
              'documents with exactly k errors for k in {0,1,2,255,256,257,511,512}) x schema methods, package functions (schema object / path / URL / location hints), XsdElement methods, '
              'XmlDocument, and the xmlschema-validate console entry x strict/lax/skip x 11 (thorough 19) source kinds. One verdict per document (known by construction); is_valid, iter_errors, '
              'validate, strict and lax decode and the exit status must agree; the strict exception must be the first lax error; decoded data must not depend on mode or source.',
